@@ -109,23 +109,25 @@ def _enabled_first(stage: int, noise: int = 0, alpha=None) -> list:
 
 def shards(tier: str) -> list:
     out = []
+    quick = tier == "quick"
     stages = [E.ST_FRESH, E.ST_CONNECTING, E.ST_OPENED, E.ST_HELLO_SENT, E.ST_CONNECTED, E.ST_DISCONNECTING, E.ST_RESOLVING, E.ST_RESOLVING_MDNS]
+    alpha = ALPHA_Q if quick else ALPHA_FULL
     for st, nz in [(x, 0) for x in stages] + [(E.ST_HELLO_SENT, 1)]:
-        for i in _enabled_first(st, nz):
-            out.append({"fn": "h05_3", "env": {"STAGE": st, "SH0": i, "NOISE": nz, "QA": 0}, "cond_timeout": 600 if tier == "quick" else 1500,
+        for i in _enabled_first(st, nz, alpha):
+            out.append({"fn": "h05_3", "env": {"STAGE": st, "SH0": i, "NOISE": nz, "QA": 1 if quick else 0}, "cond_timeout": 600 if quick else 1500,
                         "path_timeout": 60,
-                        "desc": f"stage {E.STAGE_NAMES[st]}{' (noise: handshake pending)' if nz else ''}, first event {E.NAMES[ALPHA_FULL[i]]}, then 2 symbolic events (23-event alphabet)"})
-    if tier != "quick":
+                        "desc": f"stage {E.STAGE_NAMES[st]}{' (noise: handshake pending)' if nz else ''}, first event {E.NAMES[alpha[i]]}, then 2 symbolic events ({len(alpha)}-event alphabet)"})
+    if not quick:
         deep = [(E.ST_CONNECTING, 0), (E.ST_HELLO_SENT, 0), (E.ST_CONNECTED, 0), (E.ST_DISCONNECTING, 0), (E.ST_HELLO_SENT, 1)]
         for st, nz in deep:
             for i, j in E.enabled_pairs(_mk(st, nz), ALPHA_Q):
                 out.append({"fn": "h05_4", "env": {"STAGE": st, "SH0": i, "SH1": j, "NOISE": nz, "QA": 1}, "cond_timeout": 1500, "path_timeout": 60,
-                            "desc": f"stage {E.STAGE_NAMES[st]}{' (noise)' if nz else ''}, events {E.NAMES[ALPHA_Q[i]]}, {E.NAMES[ALPHA_Q[j]]}, then 2 symbolic events (18-event alphabet)"})
+                            "desc": f"stage {E.STAGE_NAMES[st]}{' (noise)' if nz else ''}, events {E.NAMES[ALPHA_Q[i]]}, {E.NAMES[ALPHA_Q[j]]}, then 2 symbolic events ({len(ALPHA_Q)}-event alphabet)"})
     return out
 
 
 BOUNDS = {
-    "quick": "7 lifecycle stages x 3 events from a 23-event alphabet (user calls, device frames incl. same-chunk combinations, EOF/reset/write failure, cancel, loop turn / drain / next timer); plaintext transport; login=True",
+    "quick": "8 lifecycle stages (+ noise handshake stage) x 3 events from an 18-event alphabet (thorough: 23 events) (user calls, device frames incl. same-chunk combinations, EOF/reset/write failure, cancel, loop turn / drain / next timer); plaintext transport; login=True",
     "thorough": "the quick exploration plus every sequence of 4 events from an 18-event alphabet after the stages connecting, hello sent (plaintext and noise), connected, disconnecting",
 }
 OUTSIDE = ["sequences longer than the bound", "noise transport (state machine is transport independent; noise handshake paths are C03/C04/C09)", "real socket timing"]
